@@ -3,7 +3,7 @@ ASSUMED = ["decode_packed_entry_number by its contract (an entry of the book or 
            "the book as the decode set-up leaves a value book: dim >= 1, used_entries*dim floats in the value table (harness-built)"]
 def vec(name, fn, reach, what, small=None, tier="quick", timeout=900):
     d = ["H_NAME=h_" + name, "H_FN=" + fn] + (["H_SMALL=%d" % small] if small else [])
-    return Unit(name, ["C02", "C01", "C11", "C18"], "lib/codebook.c", enforce=fn, replace=["decode_packed_entry_number"], loops="codebook_decode.loops",
+    return Unit(name, ["C02", "C01", "C11", "C18"], "lib/codebook.c", enforce=fn, replace=["decode_packed_entry_number"], loops="codebook_vec.loops",
        harness="h_cb_vec.c", entry="h_" + name, defines=d, reach=reach, timeout=timeout, tier=tier, assumed=ASSUMED, note=what,
        kind="B" if small else "P", bound=("value table of <= %d floats (used_entries*dim; the one nonlinear obligation entry*dim+j < used_entries*dim scales with it); n up to 2^24, all loops closed by loop contracts" % small) if small else "")
 ADD = "vector decode (residue 1): every store lands in the n floats handed in (frame), every load inside the book's value table (entry*dim+j), both loops terminate because a value book has dim >= 1; an empty book decodes nothing; never more codewords than values"
